@@ -146,7 +146,8 @@ def resendLoopR (env : Env) (sr : Msg → Bool) : List Msg → Int → Int → R
       sendMsgR env rp
       resendLoopR env sr rest (n + 1) gfe
 
-/-- `_process_resend`; ghost marks at its two `set_seq_num` calls -/
+/-- `_process_resend`; ghost marks at its two `set_seq_num` calls (`rewind` in the segment of the first
+call, `restore` in the segment of the second) -/
 def processResendR (env : Env) (sr : Msg → Bool) (m : Msg) : R Unit := do
   let c0 ← R.get
   if c0.state != st_RESENDREQ_AWAITING then stateSetR st_RESENDREQ_HANDLING else pure ()
@@ -163,8 +164,8 @@ def processResendR (env : Env) (sr : Msg → Bool) (m : Msg) : R Unit := do
   else do
     let rows := c.journal.recoverOut b e
     let cur := c.sess.nextOut
-    R.liftM (setSeqNum (some b) none)
     R.ghost .rewind
+    R.liftM (setSeqNum (some b) none)
     let (gfb, gfe) ← resendLoopR env sr rows b b
     R.assert (decide (gfe ≤ cur))
     if gfb < cur then sendMsgR env (gapFillMsg gfb cur) else pure ()
